@@ -118,6 +118,19 @@ func c01Shapes() []Shape {
 	}})
 	add("for-cond", Prog(Def("i", N(0)), Def("s", L(0)), ForC(Op("<", V("i"), N(3)), OpSet("s", "-", V("i")), Inc("i")), Pr(V("i"), V("s"))))
 	add("for-ever-break", Prog(Def("i", N(0)), ForEver(IfS(Op(">=", V("i"), N(2)), Break{}), Pr(V("i")), Inc("i")), Pr(S("out"), V("i"))))
+	// break inside a switch clause leaves the switch: outside a loop, inside a loop (the loop goes on), and a loop inside a
+	// clause whose break leaves only that loop
+	add("break-in-switch-outside-loop", Prog(Def("x", L(0)),
+		Switch{Tag: V("x"), Cases: []Case{{Val: L(1), Body: []Stmt{Pr(S("c1")), Break{}}}, {Val: L(2), Body: []Stmt{Break{}}}}, HasDef: true, DefPos: 2, Default: []Stmt{Pr(S("d")), Break{}}}, Pr(S("after"))))
+	add("break-in-switch-inside-loop", Prog(Def("x", L(0)),
+		For3(Def("i", N(0)), Op("<", V("i"), N(3)), Inc("i"),
+			Switch{Tag: V("i"), Cases: []Case{{Val: N(1), Body: []Stmt{Pr(S("one")), Break{}}}}, HasDef: true, DefPos: 1, Default: []Stmt{IfS(Op("<", V("x"), L(1)), Break{}), Pr(S("dflt"), V("i"))}},
+			Pr(S("tail"), V("i"))), Pr(S("end"))))
+	add("loop-with-break-inside-switch-clause", Prog(Def("m", L(0)),
+		Switch{Tag: V("m"), Cases: []Case{{Val: L(1), Body: []Stmt{
+			For3(Def("i", N(0)), Op("<", V("i"), N(5)), Inc("i"), IfS(Op("==", V("i"), N(2)), Break{}), Pr(S("i"), V("i"))),
+			Def("k", N(0)), ForEver(IfS(Op(">=", V("k"), N(2)), Break{}), Inc("k")), Pr(S("k"), V("k"))}}},
+			HasDef: true, DefPos: 1, Default: []Stmt{ForC(Op("<", V("m"), L(2)), Pr(S("w")), Break{})}}, Pr(S("end"))))
 	add("for-no-parts", Prog(Def("i", N(0)), For3(nil, Op("<", V("i"), N(2)), nil, Pr(V("i")), Inc("i")), For3(Def("j", N(0)), nil, Inc("j"), IfS(Op("==", V("j"), N(2)), Break{}), Pr(V("j")))))
 	add("continue-elseif-nested", Prog(Def("t", L(0)),
 		For3(Def("i", N(0)), Op("<", V("i"), N(3)), Inc("i"),
